@@ -46,4 +46,4 @@ For each mutation X in {{A,B}}:
 - `{wt}/MUTATION/X/patch.diff`: output of `git diff` for the production-code change ONLY (no test files), applicable with `git apply` from the repository root;
 - `{wt}/MUTATION/X/zz_mut_X_test.go`: the demo test file, plus `{wt}/MUTATION/X/where.txt` containing the repo-relative directory where the test file must be placed and the exact `go test` command (with -run) to run it;
 - `{wt}/MUTATION/X/README.md`: which clause of the property it breaks, what is needed for it to manifest, and what you ran (commands + observed pass/fail with and without the patch).
-Do NOT use `git stash` (the stash is shared between worktrees of other workers); keep your work in patch files and use `git apply` / `git apply -R` / `git checkout -- .`. Keep scratch files inside your worktree, not in /tmp directly. When done, leave the worktree's tracked files UNMODIFIED (git checkout -- . ; remove the demo test files from the package dirs — the copies under MUTATION/ are what counts). Finish with a brief report: for A and B one paragraph each (file/function changed, how it breaks the property, how the demo shows it). If you could only produce one valid mutation, say so.""")
+Do NOT use `git stash` (the stash is shared between worktrees of other workers); keep your work in patch files and use `git apply` / `git apply -R` / `git checkout -- .`. Keep scratch files inside your worktree, not in /tmp directly. When done, leave the worktree's tracked files UNMODIFIED (git checkout -- . ; remove the demo test files from the package dirs — the copies under MUTATION/ are what counts). Finish with a brief report: for A and B one paragraph each (file/function changed, how it breaks the property, how the demo shows it). If you could only produce one valid mutation, say so. BASELINE ANOMALIES: if, while reading or probing the UNMODIFIED code, you notice behaviour that already contradicts the property statement (a genuine bug in the unmodified tree), describe it at the end of your report with the exact call sequence / input that shows it (do not use it as one of your mutations).""")
